@@ -95,14 +95,6 @@ func c11Payloader(c *mc.Ctx) {
 				if m != (id >= 128) {
 					c.Failf("picture-id-form", "mtu=%d frame %d picture id %d packet %d: M bit %v (7-bit form below 128, 15-bit form from 128): %s", mtu, f, id, i, m, hx(pk))
 				}
-				if len(pk) != h+len(out) {
-					c.Failf("descriptor-size", "mtu=%d frame %d picture id %d packet %d: descriptor of %d bytes, want %d", mtu, f, id, i, len(pk)-len(out), h)
-				}
-			} else if d.X != 0 || len(pk) != 1+len(out) {
-				c.Failf("descriptor-size", "mtu=%d frame %d packet %d without picture ids: %s", mtu, f, i, hx(pk))
-			}
-			if d.L != 0 || d.T != 0 || d.K != 0 || d.N != 0 {
-				c.Failf("unexpected-flags", "mtu=%d frame %d packet %d: %s", mtu, f, i, hx(pk))
 			}
 		}
 		if !bytes.Equal(got, keep) {
